@@ -192,6 +192,35 @@ def stepC (st : St) (w : List String) : St × String :=
       ({ st with sin := none, cw := some idlen, cc := none, clive := [], cheld := [], cwait := none, ccid := 0, canswered := [] },
        "R ok | C - | I ret=0 | S ok ; -")
     | none => (st, "bad-op")
+  | ["c", "req", h, "discard"] =>
+    -- mpt_connection_dispatch(con, 0, 0): no handler; a request still gets exactly one default reply (NULL message)
+    match st.cw, parseHex h with
+    | some idlen, some data =>
+      if data.length > 1000 then (st, "bad-op") else
+      let id := data.take idlen
+      let r0 := "called=0 ctx=0 id=0 acts=-"
+      if idlen ≠ 0 ∧ data.length < idlen then (st, s!"R {r0} | C - | I next=1 disp=131072 | S {r0} ; -")
+      else if idlen ≠ 0 ∧ (id.headD 0).toNat ≥ 128 then
+        -- an answer to one of our requests is still routed to its handler
+        let rid : Option Nat := match MsgId.buf2id (Reply.unmark id) with
+          | .ok (v, _) => some v
+          | _ => none
+        match rid.bind (fun v => Requester.findActive (st.cwait.getD []) v), rid with
+        | some t, some v =>
+          let again := st.canswered.contains v
+          let sp := s!"{r0} ; hr{t}({toHex (data.drop idlen)})" ++ (if again then s!" || {r0} ; -" else "")
+          ({ st with canswered := v :: st.canswered }, s!"R {r0} | C hr{t}({toHex (data.drop idlen)}) | I next=1 disp=0 | S {sp}")
+        | _, _ => (st, s!"R {r0} | C - | I next=1 disp=131072 | S {r0} ; -")
+      else if idlen ≠ 0 ∧ id.any (· ≠ 0) then
+        match (st.cc <|> Reply.create idlen true) with
+        | none => (st, "bad-op")
+        | some c0 =>
+          let c1 := (Reply.arm c0 id).2
+          let c2 := (Reply.reply c1 none 0).2
+          let frames := framesOf (c2.log.drop c0.log.length)
+          ({ st with cc := some c2 }, s!"R {r0} | C {fmtFrames frames} | I next=1 disp=0 | S {r0} ; {fmtFrames [ReplySpec.mark id]}")
+      else (st, s!"R {r0} | C - | I next=1 disp=0 | S {r0} ; -")
+    | _, _ => (st, "bad-op")
   | ["c", "req", h, a] =>
     match st.cw, parseHex h, parseActs a with
     | some idlen, some data, some acts =>
